@@ -107,11 +107,14 @@ def defaultBody : B → Nat → R B
   | b@(.union p fs types offs cur), k =>
     match fs with
     | .nil => if k = 0 then .ok b else fail "Could not find variant 0 in Union"
-    | .cons c m rest => do
-      let c' ← pushDefaultK c k
-      let c0 := cur.getD 0 0
-      pure (.union p (.cons c' m rest) (types ++ List.replicate k 0)
-        (offs ++ (List.range k).map (fun (i : Nat) => c0 + (i : Int))) (cur.set 0 (c0 + k)))
+    | .cons _ _ _ =>
+      let j := firstReal fs
+      if k ≠ 0 ∧ j > 127 then fail "out of range integral type conversion attempted"
+      else do
+        let fs' ← pushDefaultKAt fs j k
+        let cj := cur.getD j 0
+        pure (.union p fs' (types ++ List.replicate k (j : Int))
+          (offs ++ (List.range k).map (fun (i : Nat) => cj + (i : Int))) (cur.set j (cj + k)))
 
 /-- `x.serialize(Mut(b))` without the `.ctx(self)` wrapper of `b` (copy of the arms of `push`; the `Some` / newtype
 layers are transparent in `push` — they are never the blamed call) -/
